@@ -359,6 +359,28 @@ def run(chk, replay=None):
             chk.violation({"clause": "SharedArguments", "cls": nm, "other": "", "field": "",
                            "detail": {"result": str(ok), "segment type given as": str(segcode)},
                            "what": "same list/dict objects passed to two constructions"}, dedup=("SharedArguments", nm))
+    # one caller buffer handed to several write commands (a write and its zero-length "probe", a retry with another
+    # CDB size): each command's data-out stays what it was given, whatever the other command's transfer length is
+    WR = [("Write10", "WRITE_10"), ("Write12", "WRITE_12"), ("Write16", "WRITE_16"), ("WriteSame10", "WRITE_SAME_10"),
+          ("WriteSame16", "WRITE_SAME_16")]
+    for (a, aop), (b, bop) in itertools.product(WR, WR):
+        for n1, n2 in ((1, 0), (0, 1), (1, 2), (2, 1), (0, 0)):
+            buf = bytearray(cmds.pattern(512, 11))
+            want = bytes(buf)
+            try:
+                c1 = cmds.klass(a)(getattr(ec.sbc, aop), 512, 5, n1, buf)
+                cdb1 = bytes(c1.cdb)
+                c2 = cmds.klass(b)(getattr(ec.sbc, bop), 512, 9, n2, buf)
+                ok = bytes(c1.dataout) == want and bytes(c2.dataout) == want and bytes(buf) == want and bytes(c1.cdb) == cdb1
+                what = {"first_dataout_len": len(c1.dataout), "second_dataout_len": len(c2.dataout), "buffer_len": len(buf)}
+            except Exception as ex:
+                ok, what = False, {"raised": repr(ex)}
+            ev.case(("shared-buffer", a, b, n1, n2))
+            if not ok:
+                chk.violation({"clause": "SharedArguments", "cls": a, "other": b, "field": "",
+                               "detail": dict(what, first_count=n1, second_count=n2),
+                               "what": "the same data buffer passed to two write commands"},
+                              dedup=("SharedArguments", "buffer", a if n1 == 0 else b))
     if "PersistentReserveOut" in refs:
         K = cmds.klass("PersistentReserveOut")
         op = ec.spc.PERSISTENT_RESERVE_OUT
